@@ -492,3 +492,21 @@ for prop, verdict in (("C01", _c01v), ("C03", _c03), ("C04", _c04), ("C05", _c05
                  goals=("ref_value", "ref_fail"),
                  doc=doc("family F_plain: 4 nodes, every node has 1-2 Input parameters bound to earlier nodes by symbolic "
                          "selectors (36 programs); one symbolic node may fail", list(SYMS) + ["binding selectors", "which node is fallible"])))
+
+
+# ------------------------------------------------------------------------------------ symbolic node functions / two inputs
+# Every node's additive constant is a symbolic int in [-50, 50] (so the claim quantifies over a family of node functions,
+# not one), and the caller passes two symbolic inputs.  Thorough tier.
+def _two_inputs(f: Any) -> Any:
+    def g() -> Spec:
+        sp = f()
+        return Spec(sp.name + "_xy", sp.nodes, sp.input, sp.output, input_keys=("x", "y"), dur_nodes=sp.dur_nodes)
+
+    return g
+
+
+for prop, verdict in (("C01", _c01v), ("C03", _c03)):
+    for nm, f in [("rhombus", lambda: C.rhombus(True)), ("oneof_depth2", lambda: C.oneof_depth(2)),
+                  ("switch_nested", C.switch_nested), ("rec_inner_start", lambda: C.rec_inner_start(1, True))]:
+        _reg(prop, "symbase_xy_" + nm, _two_inputs(f), verdict, tier="thorough", budget=2400, beh_kw={"sym_base": True},
+             extra_syms=("additive constant of every node in [-50,50]", "second caller input y"))
